@@ -1,0 +1,24 @@
+//go:build verif
+
+package lock
+
+// QueueCount returns the number of per-key queue objects the lock currently keeps in its
+// map (harness use only).
+func QueueCount(l Lock) int {
+	n := 0
+	l.(*lock).queues.Range(func(_, _ any) bool { n++; return true })
+	return n
+}
+
+// QueueLen returns the number of callers queued on key (0 when the key has no queue), and
+// whether the key has a map entry at all.
+func QueueLen(l Lock, key string) (int, bool) {
+	v, ok := l.(*lock).queues.Load(key)
+	if !ok {
+		return 0, false
+	}
+	q := v.(*queue)
+	q.mu.Lock()
+	defer q.mu.Unlock()
+	return len(q.callers), true
+}
